@@ -202,22 +202,18 @@ def colour_ok(eng, st, v):
         if p[0] == 'vec-elem' and isinstance(p[1], tuple) and 'FG_BG_256' in str(p[1]):
             return True, 'entry of FG_BG_256'
         if p[0] == 'format':
+            from . import fmtspec
             tmpl = p[1] if len(p) > 1 else None
             items = p[2] if len(p) > 2 else ()
-            if len(items) == 3 and all(isinstance(i, tuple) and i[0] == 'lower_hex' for i in items):
-                bad = []
-                for i in items:
-                    x = i[1]
-                    if isinstance(x, NumV):
-                        lo, hi = eng.bounds(st, x)
-                        if not (lo >= 0 and hi <= 255):
-                            bad.append('%r in [%s, %s]' % (x, lo, hi))
-                    else:
-                        bad.append(repr(x))
-                if bad:
-                    return False, 'hex formatter with a component outside 0..=255: ' + ', '.join(bad)
-                return True, 'rrggbb formatter with components <= 255'
-            return False, 'formatter of unexpected shape %r' % (p,)
+            bounds = []
+            for i in items:
+                if isinstance(i, tuple) and len(i) > 1 and isinstance(i[1], NumV):
+                    lo, hi = eng.bounds(st, i[1])
+                    bounds.append((i[0], None if lo in (float('-inf'),) else lo, None if hi in (float('inf'),) else hi))
+                else:
+                    bounds.append((i[0] if isinstance(i, tuple) and i else '?', None, None))
+            okf, whyf = fmtspec.hex_digits_exact(fmtspec.decode(tmpl), bounds)
+            return okf, ('hex formatter: ' + whyf)
         if p[0] == 'inv':
             return True, 'copy of a stored colour (invariant I8)'
     return False, 'provenance %r' % (p,)
